@@ -369,6 +369,7 @@ class ProdParser:
         self._log = cssutils.log
         if clear:
             tokenizer.clear()
+            del savedTokens[:]
 
     def _texttotokens(self, text):
         """Build a generator which is the only thing that is parsed!
